@@ -24,7 +24,8 @@ REQUIRED = ["C18_start_projected", "C18_flags_truthful_init", "C18_ls_steps_with
             "C18_ls_bound_reached_means", "C18_nearest_bound", "C18_feasible_always", "C18_cg_strategy_ok",
             "C18_invalid_bounds", "C18_iterations_bounded", "C18_terminates", "C18_flags_truthful",
             "C18_converged_means", "C18_lm_feasible_flags", "C18_lm_trial_needs_no_clamp", "C18_lm_invalid_bounds",
-            "C18_converged_means_lm_partial"]
+            "C18_converged_means_lm_partial", "C18_ls_reported_cost", "C18_reported_cost", "C18_lm_inner_terminates",
+            "C18_lm_iterations_bounded", "C18_flags_truthful_release", "C18_converged_means_gradient"]
 REFUTE = ["Adept.Minimizer.Refute.converged_means_lm_refuted"]
 SKIP = ("skip-overflow-regime", "skip-exception")
 
